@@ -491,7 +491,43 @@ class TV:
                     new.NZ.add(key(patom(("xi", k))))
         for k in extra_nz:
             new.NZ.add(key(patom(("c", k))))
+        self.canonical_aliases(new)
         return new
+
+    def canonical_aliases(self, new):
+        """cells known to be equal ("cell k = cell j") get one representative (the smallest index),
+        which keeps its own atom; every other fact is written over representatives, so that the two
+        sides cannot name the same value by different atoms"""
+        M = self.M
+        parent = {}
+
+        def find(x):
+            while parent.get(x, x) != x:
+                x = parent[x]
+            return x
+        for k, q in new.Cb.items():
+            a = single_atom(q)
+            if a is not None and a[0] == "c":
+                ra, rb = find(k), find(a[1])
+                if ra != rb:
+                    parent[max(ra, rb)] = min(ra, rb)
+        if not parent:
+            return
+        rep = lambda a: patom(("c", find(a[1]))) if a[0] == "c" else patom(a)
+        members = set(parent) | set(parent.values())
+        for k in members:
+            r = find(k)
+            if k == r:
+                new.Cb.pop(k, None); new.Ci.pop(k, None)
+            else:
+                new.Cb[k] = patom(("c", r)); new.Ci[k] = patom(("c", r))
+        for k, q in list(new.Cb.items()):
+            if k not in members:
+                q2 = psubst(q, rep, M)
+                new.Cb[k] = q2; new.Ci[k] = q2
+        for t, q in list(new.T.items()):
+            new.T[t] = psubst(q, rep, M)
+        new.NZ = set(key(psubst(dict(q), rep, M)) for q in new.NZ)
 
     def moved(self, st, shift):
         """state after a pointer move: nothing is known about the cells relative to the new pointer,
